@@ -168,6 +168,26 @@ def _log(path: typing.Optional[str], record: dict) -> None:
             os.close(fd)
 
 
+class Opaque:
+    """A hyper-parameter value that every textual rendering shows the same way (forml renders anything with a ``__name__``
+    by that name - the way all lambdas render as ``<lambda>``) while its content differs: two builders differing only in
+    such a value have equal reprs, different pickles and different behaviour."""
+
+    __name__ = 'n'
+
+    def __init__(self, value: str):
+        self.value = value
+
+    def __call__(self) -> str:
+        return self.value
+
+    def __eq__(self, other):
+        return isinstance(other, Opaque) and other.value == self.value
+
+    def __hash__(self):
+        return hash(('Opaque', self.value))
+
+
 class Stateless(flow.Actor):
     """``apply(*x) = app(name, none, x...)`` (per-port ``out(i, .)`` when nout > 1).
 
@@ -178,7 +198,8 @@ class Stateless(flow.Actor):
     def __init__(self, name: str, nout: int = 1, log: typing.Optional[str] = None, epoch: typing.Optional[str] = None):
         import os
 
-        self.name = name
+        self.given = name  # as supplied: a plain string or an Opaque carrying it
+        self.name = name() if isinstance(name, Opaque) else name
         self.nout = nout
         self.log = log
         #: hyper-parameter "of the current code": taken from the deployment environment when the actor is created; when set
@@ -195,10 +216,12 @@ class Stateless(flow.Actor):
         return result
 
     def get_params(self):
-        return {'name': self.name, 'nout': self.nout, 'log': self.log, 'epoch': self.epoch}
+        return {'name': self.given, 'nout': self.nout, 'log': self.log, 'epoch': self.epoch}
 
     def set_params(self, **params):
         for key, value in params.items():
+            if key == 'name':
+                self.given, value = value, value() if isinstance(value, Opaque) else value
             setattr(self, key, value)
 
 
